@@ -52,10 +52,10 @@ Proof.
 Qed.
 
 (* ---- the three shapes of outcome *)
-Lemma judge_sel res expect : sel_post expect res ->
+Lemma judge_sel res expect : sel_post m expect res ->
   o_panic (out_sel k res) = false /\ res_is (out_sel k res) expect = true.
 Proof.
-  intros (m' & r & -> & V). cbn [out_sel o_panic]. split; [reflexivity|].
+  intros (m' & r & -> & V & _). cbn [out_sel o_panic]. split; [reflexivity|].
   unfold res_is. cbn [o_res observe r_vals]. rewrite V. apply eqb_list_refl.
 Qed.
 
@@ -161,6 +161,83 @@ Proof.
     rewrite eqb_list_refl, !Z.eqb_refl. reflexivity. }
   (* no such function: the run reports a panic; such a case is not well-formed for the harness, but the statement
      is about wf_case only, so it has to be excluded here *)
+  exfalso. clear - WF E1 E2 E3 E4 E5 E6 E7 E8 E9 E10 E11 E12 E13 E14 E15 E16 E17 E18 E19 E20 E21. revert WF.
+  unfold wf_case. destruct m as [|[|? ?] ?]; try discriminate. intros H. apply andb_true_iff in H. destruct H as [_ H].
+  unfold args_ok in H. rewrite E7, E8, E9, E10, E13, E16, E20 in H. cbn [orb] in H.
+  apply andb_true_iff in H. destruct H as [H1 H2]. apply Z.leb_le in H1, H2.
+  apply Z.eqb_neq in E1, E2, E3, E4, E5, E6, E7, E8, E9, E10, E11, E12, E13, E14, E15, E16, E17, E18, E19, E20, E21.
+  unfold F_DIFF, F_DIFF_IP, F_INTER, F_INTER_IP, F_UNIQUE, F_UNIQUE_IP, F_UNIQKEY, F_UNIQKEY_IP, F_FILTER, F_FILTER_IP, F_EQUAL,
+    F_INDEX, F_INDEXFN, F_SUBSLICE, F_CONTAINS, F_CONTAINSFN, F_CHUNK, F_CHUNKP, F_COPY, F_VALUES, F_REMOVE in *. lia.
+Qed.
+
+(* the shape of the model's outcome (needed for the token-level round trip): no panic, all k arrays dumped *)
+Lemma arrays_len m' : (length m <= length m')%nat -> length (arrays_of k m') = k.
+Proof. intros L. pose proof mem_len. unfold arrays_of. rewrite firstn_length, skipn_length. lia. Qed.
+
+Theorem run_case_shape : unclaimed_sel c = false ->
+  o_panic (run_case c) = false /\ length (o_arrs (run_case c)) = k.
+Proof.
+  intros U.
+  assert (Cl : is_sel (c_f c) = true -> claimed (sl c 0) (sl c 1)).
+  { intros Hs. unfold unclaimed_sel in U. rewrite Hs in U. cbn [andb] in U. apply negb_false_iff in U. apply layout_claimed_iff. exact U. }
+  assert (Sel : forall expect res, sel_post m expect res -> o_panic (out_sel k res) = false /\ length (o_arrs (out_sel k res)) = k).
+  { intros expect res (m' & r & -> & _ & L). cbn [out_sel o_panic o_arrs]. split; [reflexivity|apply arrays_len; exact L]. }
+  assert (Ip : forall s expect res, ip_post m s expect res -> o_panic (out_sel k res) = false /\ length (o_arrs (out_sel k res)) = k).
+  { intros s expect res (m' & r & -> & _ & _ & _ & _ & _ & L). cbn [out_sel o_panic o_arrs]. split; [reflexivity|apply arrays_len; lia]. }
+  assert (Same : forall rs sc, o_panic (mkOut false rs sc (arrays_of k m)) = false /\ length (o_arrs (mkOut false rs sc (arrays_of k m))) = k).
+  { intros. cbn [o_panic o_arrs]. split; [reflexivity|apply arrays_len; lia]. }
+  unfold run_case.
+  destruct (c_f c =? F_DIFF) eqn:E1.
+  { assert (Hs : is_sel (c_f c) = true) by (unfold is_sel; rewrite E1; reflexivity).
+    exact (Sel _ _ (go_diff_spec m (sl c 0) (sl c 1) (sl c 2) (sl_wfs 1) (sl_wfs 2) (sl_wfs 0) (Cl Hs))). }
+  destruct (c_f c =? F_DIFF_IP) eqn:E2.
+  { exact (Ip _ _ _ (go_diff_in_place_spec m (sl c 0) (sl c 1) (sl_wfs 0) (sl_wfs 1))). }
+  destruct (c_f c =? F_INTER) eqn:E3.
+  { assert (Hs : is_sel (c_f c) = true) by (unfold is_sel; rewrite E3; rewrite !orb_true_r; reflexivity).
+    exact (Sel _ _ (go_intersect_spec m (sl c 0) (sl c 1) (sl c 2) (sl_wfs 1) (sl_wfs 2) (sl_wfs 0) (Cl Hs))). }
+  destruct (c_f c =? F_INTER_IP) eqn:E4.
+  { exact (Ip _ _ _ (go_intersect_in_place_spec m (sl c 0) (sl c 1) (sl_wfs 0) (sl_wfs 1))). }
+  destruct (c_f c =? F_UNIQUE) eqn:E5.
+  { assert (Hs : is_sel (c_f c) = true) by (unfold is_sel; rewrite E5; rewrite !orb_true_r; reflexivity).
+    exact (Sel _ _ (go_unique_by_key_spec (fun v => v) m (sl c 0) (sl c 1) (sl_wfs 1) (sl_wfs 0) (Cl Hs))). }
+  destruct (c_f c =? F_UNIQUE_IP) eqn:E6.
+  { exact (Ip _ _ _ (go_unique_by_key_in_place_spec (fun v => v) m (sl c 0) (sl_wfs 0))). }
+  destruct (c_f c =? F_UNIQKEY) eqn:E7.
+  { assert (Hs : is_sel (c_f c) = true) by (unfold is_sel; rewrite E7; rewrite !orb_true_r; reflexivity).
+    exact (Sel _ _ (go_unique_by_key_spec (key_of (arg c 0)) m (sl c 0) (sl c 1) (sl_wfs 1) (sl_wfs 0) (Cl Hs))). }
+  destruct (c_f c =? F_UNIQKEY_IP) eqn:E8.
+  { exact (Ip _ _ _ (go_unique_by_key_in_place_spec (key_of (arg c 0)) m (sl c 0) (sl_wfs 0))). }
+  destruct (c_f c =? F_FILTER) eqn:E9.
+  { assert (Hs : is_sel (c_f c) = true) by (unfold is_sel; rewrite E9; rewrite !orb_true_r; reflexivity).
+    exact (Sel _ _ (go_filter_spec (pred_of (arg c 0)) m (sl c 0) (sl c 1) (sl_wfs 1) (sl_wfs 0) (Cl Hs))). }
+  destruct (c_f c =? F_FILTER_IP) eqn:E10.
+  { exact (Ip _ _ _ (go_filter_in_place_spec (pred_of (arg c 0)) m (sl c 0) (sl_wfs 0))). }
+  destruct (c_f c =? F_EQUAL) eqn:E11.
+  { rewrite (go_equal_spec m (sl c 0) (sl c 1) (sl_wfs 0) (sl_wfs 1)). apply Same. }
+  destruct (c_f c =? F_INDEX) eqn:E12.
+  { rewrite (go_index_spec m (sl c 0) (arg c 0) (sl_wfs 0)). apply Same. }
+  destruct (c_f c =? F_INDEXFN) eqn:E13.
+  { rewrite (go_index_func_spec (pred_of (arg c 0)) m (sl c 0) (sl_wfs 0)). apply Same. }
+  destruct (c_f c =? F_SUBSLICE) eqn:E14.
+  { destruct (go_subslice_spec m (sl c 0) (arg c 0) (arg c 1) (sl_wfs 0)) as (r & E & _). rewrite E. apply Same. }
+  destruct (c_f c =? F_CONTAINS) eqn:E15.
+  { rewrite (go_contains_spec m (sl c 0) (arg c 0) (sl_wfs 0)). apply Same. }
+  destruct (c_f c =? F_CONTAINSFN) eqn:E16.
+  { rewrite (go_contains_func_spec (pred_of (arg c 0)) m (sl c 0) (sl_wfs 0)). apply Same. }
+  destruct (c_f c =? F_CHUNK) eqn:E17.
+  { destruct (go_chunk_spec m (sl c 0) (arg c 0) (sl_wfs 0)) as (ocap & cs & E & _). rewrite E. apply Same. }
+  destruct (c_f c =? F_CHUNKP) eqn:E18.
+  { pose proof (go_chunk_process_spec (arg c 1) m (sl c 0) (arg c 0) (sl_wfs 0)) as G. cbv zeta in G. destruct G as (calls & E & _).
+    rewrite E. apply Same. }
+  destruct (c_f c =? F_COPY) eqn:E19.
+  { destruct (go_copy_spec m (sl c 0) (arg c 0) (arg c 1) (sl_wfs 0)) as (m' & r & E & _ & _ & Mm). rewrite E. cbn [out_sel o_panic o_arrs].
+    split; [reflexivity|]. apply arrays_len. destruct Mm as [->|(x & ->)]; [apply le_n|rewrite app_length; apply Nat.le_add_r]. }
+  destruct (c_f c =? F_VALUES) eqn:E20.
+  { pose proof (go_values_spec (fn_of (arg c 0) (arg c 1)) m (c_sl c)) as G. destruct (go_values _ m (c_sl c)) as [m' r].
+    destruct G as (_ & _ & (x & ->)). cbn [out_sel o_panic o_arrs]. split; [reflexivity|]. apply arrays_len. rewrite app_length. apply Nat.le_add_r. }
+  destruct (c_f c =? F_REMOVE) eqn:E21.
+  { destruct (go_remove_spec m (sl c 0) (arg c 0) (sl_wfs 0)) as (m' & r & v & ok & E & _ & _ & L & _). rewrite E. cbn [o_panic o_arrs].
+    split; [reflexivity|]. apply arrays_len. rewrite L. apply le_n. }
   exfalso. clear - WF E1 E2 E3 E4 E5 E6 E7 E8 E9 E10 E11 E12 E13 E14 E15 E16 E17 E18 E19 E20 E21. revert WF.
   unfold wf_case. destruct m as [|[|? ?] ?]; try discriminate. intros H. apply andb_true_iff in H. destruct H as [_ H].
   unfold args_ok in H. rewrite E7, E8, E9, E10, E13, E16, E20 in H. cbn [orb] in H.
